@@ -658,6 +658,10 @@ func (x *Exec) execAppend(fr *Frame, st *State, cc *ssa.CallCommon, pos token.Po
 		// prefix copied (absolute index k over the new array)
 		x.assume(Term{fmt.Sprintf("(forall ((k Int)) (! (=> (and (<= %s k) (< k (+ %s %s))) (= (select %s k) (select %s (+ %s (- k %s))))) :pattern ((select %s k))))",
 			roff.S, roff.S, s.Len.S, na.S, oldArr.S, s.Off.S, roff.S, na.S), SBool})
+		// the same fact, found from a read of the old array (an `exists` hypothesis about the old slice has to
+		// reach a goal about the new one)
+		x.assume(Term{fmt.Sprintf("(forall ((k Int)) (! (=> (and (<= %s k) (< k (+ %s %s))) (= (select %s (+ %s (- k %s))) (select %s k))) :pattern ((select %s k))))",
+			s.Off.S, s.Off.S, s.Len.S, na.S, roff.S, s.Off.S, oldArr.S, oldArr.S), SBool})
 		// appended elements
 		rel := Sub(k, Add(roff, s.Len)) // position within the appended part
 		x.assume(Term{fmt.Sprintf("(forall ((k Int)) (! (=> (and (<= (+ %s %s) k) (< k (+ %s %s))) (= (select %s k) %s)) :pattern ((select %s k))))",
